@@ -6,8 +6,9 @@ CONSTANTS
   Atoms <- AtomsListN
   Prefix <- PfxNone
   MaxLen = 8
+  MaxAtoms = 99
   Cfgs <- CfgsCont
   Junk = 34
   EmitOn = TRUE
-INVARIANTS ResumeEqFresh Stable OffsSane Emit
+INVARIANTS ResumeEqFresh Stable OffsSane Emit EmitTwo EmitByte
 CHECK_DEADLOCK FALSE
